@@ -49,6 +49,8 @@ fn relative_location_path(input: &str) -> IResult<&str, model::RelativeLocationP
 ///
 /// [\[12\] AbbreviatedStep](https://triple-underscore.github.io/XML/xpath10-ja.html#NT-AbbreviatedStep)
 fn step(input: &str) -> IResult<&str, model::Step> {
+    #[cfg(xml_rs_verif)]
+    xml_nom::verif::tick();
     alt((
         map(tag(".."), |_| model::Step::Parent),
         map(char('.'), |_| model::Step::Current),
@@ -143,6 +145,8 @@ fn node_test(input: &str) -> IResult<&str, model::NodeTest> {
 ///
 /// [\[8\] Predicate](https://triple-underscore.github.io/XML/xpath10-ja.html#NT-Predicate)
 fn predicate(input: &str) -> IResult<&str, model::PredicateExpr> {
+    #[cfg(xml_rs_verif)]
+    xml_nom::verif::tick();
     delimited(
         tuple((char('['), multispace0)),
         predicate_expr,
@@ -161,6 +165,8 @@ fn predicate_expr(input: &str) -> IResult<&str, model::PredicateExpr> {
 ///
 /// [[14] Expr](https://triple-underscore.github.io/XML/xpath10-ja.html#NT-Expr)
 fn expr(input: &str) -> IResult<&str, model::Expr> {
+    #[cfg(xml_rs_verif)]
+    xml_nom::verif::tick();
     or_expr(input)
 }
 
@@ -168,6 +174,8 @@ fn expr(input: &str) -> IResult<&str, model::Expr> {
 ///
 /// [\[15\] PrimaryExpr](https://triple-underscore.github.io/XML/xpath10-ja.html#NT-PrimaryExpr)
 fn primary_expr(input: &str) -> IResult<&str, model::PrimaryExpr> {
+    #[cfg(xml_rs_verif)]
+    xml_nom::verif::tick();
     alt((
         map(variable_reference, model::PrimaryExpr::from),
         map(
@@ -212,6 +220,8 @@ fn argument(input: &str) -> IResult<&str, model::Argument> {
 ///
 /// [\[18\] UnionExpr](https://triple-underscore.github.io/XML/xpath10-ja.html#NT-UnionExpr)
 fn union_expr(input: &str) -> IResult<&str, model::UnionExpr> {
+    #[cfg(xml_rs_verif)]
+    xml_nom::verif::tick();
     map(
         separated_list1(tuple((multispace0, tag("|"), multispace0)), path_expr),
         model::UnionExpr::from,
@@ -233,6 +243,8 @@ fn union_expr(input: &str) -> IResult<&str, model::UnionExpr> {
 ///
 /// [\[19\] PathExpr](https://triple-underscore.github.io/XML/xpath10-ja.html#NT-UnionExpr)
 fn path_expr(input: &str) -> IResult<&str, model::PathExpr> {
+    #[cfg(xml_rs_verif)]
+    xml_nom::verif::tick();
     alt((
         map(
             tuple((
@@ -273,6 +285,8 @@ fn path_expr(input: &str) -> IResult<&str, model::PathExpr> {
 ///
 /// [\[20\] FilterExpr](https://triple-underscore.github.io/XML/xpath10-ja.html#NT-FilterExpr)
 fn filter_expr(input: &str) -> IResult<&str, model::FilterExpr> {
+    #[cfg(xml_rs_verif)]
+    xml_nom::verif::tick();
     map(
         tuple((primary_expr, many0(preceded(multispace0, predicate)))),
         model::FilterExpr::from,
